@@ -624,6 +624,7 @@ func runC07(c *mon.Ctx) {
 		}
 	}
 	c07CreateWithRoomID(c)
+	c07DirectedPowerLevelPairs(c)
 	c.Floor("reference_allows", 100)
 	c.Floor("reference_rejects", 100)
 	for _, rule := range []string{"3:join-public", "3:restricted-join-authorised", "3:ban-allowed", "3:kick-allowed", "3:invite-allowed", "3:knock-allowed", "3:creator-first-join", "3:tpi-signature-valid",
@@ -742,4 +743,83 @@ func (f *faultyProvider) ThirdPartyInvite(sk string) (gmsl.PDU, error) {
 		return nil, err
 	}
 	return f.AuthEvents.ThirdPartyInvite(sk)
+}
+
+// c07DirectedPowerLevelPairs: (current, proposed) power-level contents in which the sender's level lies strictly
+// between two values that a comparison could confuse - in particular BELOW 50, the default of notifications.room and of
+// ban / kick / redact / state_default, which has no business in the judgement of a key that has no default (tenth
+// seeding round, C07-T: a notification key other than "room" that is removed was compared with an invented 50 again,
+// so a level-40 user could not remove "foo": 10). The random proposals rarely put the sender there.
+func c07DirectedPowerLevelPairs(c *mon.Ctx) {
+	r := c.Rand("directed-pl-pairs")
+	n := 0
+	for _, ver := range sortedVersions() {
+		t := ref.Traits(string(ver))
+		if t == nil || ver == gmsl.RoomVersionPseudoIDs {
+			continue
+		}
+		w := newWorld(r, ver, "plain", 1)
+		creator, mod, other := authUsers[0], authUsers[1], authUsers[2]
+		base := func() *ref.Value {
+			u := ref.O(mod, ref.I(40), other, ref.I(10))
+			if !t.PrivCreators {
+				u.Set(creator, ref.I(100))
+			}
+			return ref.O("users", u, "users_default", ref.I(0), "events", ref.O("m.room.power_levels", ref.I(30)), "notifications", ref.O("room", ref.I(50), "foo", ref.I(10), "bar", ref.I(45)))
+		}
+		type pair struct {
+			name string
+			edit func(p *ref.Value)
+		}
+		pairs := []pair{
+			{"notification-entry-below-sender-removed", func(p *ref.Value) { p.Get("notifications").Del("foo") }},
+			{"notification-entry-above-sender-removed", func(p *ref.Value) { p.Get("notifications").Del("bar") }},
+			{"notification-entry-added-below-sender", func(p *ref.Value) { p.Get("notifications").Set("baz", ref.I(20)) }},
+			{"notification-entry-added-above-sender", func(p *ref.Value) { p.Get("notifications").Set("baz", ref.I(45)) }},
+			{"notification-entry-lowered", func(p *ref.Value) { p.Get("notifications").Set("foo", ref.I(5)) }},
+			{"notification-room-removed", func(p *ref.Value) { p.Get("notifications").Del("room") }},
+			{"events-entry-added-below-sender", func(p *ref.Value) { p.Get("events").Set("m.room.topic", ref.I(35)) }},
+			{"events-entry-added-at-state-default", func(p *ref.Value) { p.Get("events").Set("m.room.topic", ref.I(50)) }},
+			{"user-below-sender-removed", func(p *ref.Value) { p.Get("users").Del(other) }},
+			{"user-added-below-sender", func(p *ref.Value) { p.Get("users").Set(authUsers[3], ref.I(20)) }},
+			{"threshold-invite-raised-to-sender", func(p *ref.Value) { p.Set("invite", ref.I(40)) }},
+			{"threshold-ban-lowered", func(p *ref.Value) { p.Set("ban", ref.I(40)) }},
+		}
+		for _, pr := range pairs {
+			n++
+			if !c.Mine(n) {
+				continue
+			}
+			cur := base()
+			proposed := base()
+			pr.edit(proposed)
+			curEv := w.mustBuild("m.room.power_levels", strp(""), creator, cur)
+			ev, err := w.build("m.room.power_levels", strp(""), mod, proposed, nil, "")
+			if err != nil {
+				c.Count("unbuildable_event")
+				continue
+			}
+			state := []gmsl.PDU{w.create, curEv, w.members[[2]string{creator, "join"}], w.members[[2]string{mod, "join"}], w.members[[2]string{other, "join"}]}
+			name := fmt.Sprintf("auth:%s:power-levels-pair:%s", ver, pr.name)
+			c.Case(name, map[string]any{"version": ver, "sender": mod, "current": gen.Describe(cur), "proposed": gen.Describe(proposed)}, func() {
+				c.Nontrivial(name)
+				want, rule, got, ok := judgeAuth(c, w, state, ev, "power-levels-pair")
+				if !ok {
+					return
+				}
+				c.Count("directed_power_level_pairs")
+				if want == ref.NoOpinion {
+					c.Count("abstained")
+					return
+				}
+				if (got == nil) != (want == ref.Allow) {
+					dir := "library-rejects"
+					if got == nil {
+						dir = "library-accepts"
+					}
+					c.Failf("auth:"+dir+":"+rule+":"+pr.name, "v%s power-levels event by a level-40 user (%s): reference %s by rule %s, library: %v\ncurrent:  %s\nproposed: %s", w.ver, pr.name, want, rule, got, gen.Describe(cur), gen.Describe(proposed))
+				}
+			})
+		}
+	}
 }
